@@ -121,6 +121,16 @@ def rdOp (r : Rd) (tok : String) : Option (String × Rd) :=
       | .ok (b, r') => some (showBytes b, r')
       | .error .alloc => some ("err:alloc", r)
       | .error _ => some ("err", r)
+  | 'W' => do
+      let n ← natTail tok
+      match r.read (2 * n) with
+      | .ok (b, r') => some (showBytes b, r')
+      | .error _ => some ("err", r)
+  | 'X' => do
+      let n ← natTail tok
+      match r.read (4 * n) with
+      | .ok (b, r') => some (showBytes b, r')
+      | .error _ => some ("err", r)
   | 'c' => do
       let n ← natTail tok
       match r.read (4 * n) with
